@@ -369,9 +369,9 @@ func (e *Env) pgSpaces(thorough bool) []*Space {
 		pkt('D', []byte{0xFF, 0xFF}), pkt('D', []byte{0, 1, 0, 0, 0, 9, 'a'}), pkt('D', []byte{0, 2, 0xFF, 0xFF, 0xFF, 0xFF}), pkt('D', []byte{0, 1, 0x04, 0x10, 0, 0}),
 		raw('D', 4), raw('D', 5, 0), raw('D', 3), raw('D', 0), raw('D', 0x04100000),
 	}}
-	l = 4
+	l = 3
 	if thorough {
-		l = 5
+		l = 4
 	}
 	out = append(out, e.sigma("postgresql", "pg-client-packets", cliA, l, pktDecs[:2], nil, nil)...)
 	out = append(out, e.sigma("postgresql", "pg-backend-packets", dbA, l, pktDecs[2:], nil, nil)...)
